@@ -1398,7 +1398,7 @@ def branch_label(local_verts, faces, ang, vd, near_dist, centre_visible):
     if near_dist > vd:
         return "distance-reject", {"distance-reject"}
     v = np.asarray(local_verts, float)
-    e = mesh_edges(faces)
+    e = faces if faces.shape[1] == 2 else mesh_edges(faces)  # an (E, 2) array is taken as the edge list itself
     a, b = v[e[:, 0]], v[e[:, 1]]
     with np.errstate(divide="ignore", invalid="ignore"):
         cross = (a[:, 0] / b[:, 0]) < 0
@@ -1468,7 +1468,7 @@ def classify_rod(cam_l, ang, vd, A, B, spacing):
 
     def F():
         helper = np.array([0.0, 0.0, 1.0]) if abs(axis[2]) / L < 0.9 else np.array([1.0, 0.0, 0.0])
-        return M.frame_from_axes(axis, np.cross(helper, axis))
+        return M.frame_from_axes(axis, M._cross(helper, axis))
 
     rad_m = RAD_M_FRAC * vd
     u = axis / L
@@ -1508,13 +1508,20 @@ def eval_branch(payload):
     loc = [r * vd * M.direction(math.radians(az), math.radians(alt)) for az, alt, r in pts]
     have = {}
     n_run = 0
-    box_faces = M.box_mesh((1, 1, 1), np.eye(3), zero)[1]
+    box_faces = mesh_edges(M.box_mesh((1, 1, 1), np.eye(3), zero)[1])  # edge list of the box triangulation
+    need = {x for x in REQUIRED_BRANCH_FLAGS}
+    done = False
     for i in range(len(pts)):
         if pts[i][2] != 0.5 and pts[i] != (0.0, 0.0, 1.3):
             continue  # one end of every rod is near the camera (plus rods starting straight ahead beyond visibleDistance)
+        if done:
+            break
         for j in range(len(pts)):
             if j == i or (pts[j][2] == 0.5 and j < i):
                 continue
+            if all(have.get(x, 0) >= per_flag for x in need):
+                done = True
+                break
             got = classify_rod(zero, ang, vd, loc[i], loc[j], spacing)
             acc.inc("branch_rods_classified")
             if got is None:
